@@ -1,6 +1,7 @@
 import Resynth.Lemmas.LitNum
 import Resynth.Lemmas.LitQuad
 import Resynth.Lemmas.LitSock
+import Resynth.Lemmas.LitDecode
 /-!
 # C17 — Literals denote exactly what is written, or are rejected
 
@@ -8,10 +9,12 @@ A decimal or `0x`-hexadecimal integer literal denotes exactly that value over th
 range, a dotted quad exactly those four octets, `true`/`false` the booleans, and `ip:port` or
 `ip/port` the socket address with exactly that address and port.  A literal that has no such
 value — an integer beyond 64 bits, a negative number, a quad with an out-of-range or zero-padded
-octet, a port above 65535 — is rejected.
+octet, a port above 65535, a string whose closed `|..|` section holds an odd number of hex digits
+or a non-hex character — is rejected.
 
 The reference reading of the syntaxes is `Resynth.Spec.{decValue, hexValue, quadText, quadValue}`
-(`Resynth/Spec/Literal.lean`).  (The string-literal part of C17 lives elsewhere.)
+(`Resynth/Spec/Literal.lean`); hex sections of string literals are rendered by
+`Resynth.Spec.renderItems` (`Resynth/Spec/StrLit.lean`).
 -/
 namespace Resynth.C17
 open Resynth Resynth.Spec
@@ -280,5 +283,48 @@ example (env : Env) (st : PState) :
   rw [slash_literals]; rfl
 example : LR.reduceSockaddr [.lit (.u64 65535), .loc ⟨1, 18⟩, .lit (.ip4 167772161), .loc ⟨1, 9⟩] =
     .ok [.lit (.sock4 167772161 65535), .loc ⟨1, 9⟩] := colon_sockaddr_exact _ _ _ _ _ (by decide)
+
+/-! ## 7 string literals with a malformed hex section -/
+
+/-- A closed `|…|` section with an odd number of hex digits (in any letter case, with any
+fillers between them) makes the literal invalid - wherever the section occurs (`pre` ends
+outside a hex section) and whatever follows it. -/
+theorem hex_section_odd_rejected (pre post : List Char) (items : List HexItem)
+    (he : LitDecode.endsPlain pre = true)
+    (hf : ∀ c, HexItem.fill c ∈ items → isFiller c = true)
+    (hodd : (nibbles items).length % 2 = 1) :
+    decodeStr (String.ofList (pre ++ '|' :: renderItems items ++ '|' :: post)) = none :=
+  LitDecode.hex_section_odd_rejected pre post items he hf hodd
+
+/-- A character inside a `|…` section that is not a hex digit, not a separator or white space
+and not the closing bar makes the literal invalid, closed or not. -/
+theorem hex_section_badchar_rejected (pre body₁ body₂ : List Char) (c : Char)
+    (he : LitDecode.endsPlain pre = true) (h₁ : ∀ x ∈ body₁, x ≠ '|')
+    (hf : isFiller c = false) (hb : c ≠ '|') (hx : hexVal c = none) :
+    decodeStr (String.ofList (pre ++ '|' :: body₁ ++ c :: body₂)) = none :=
+  LitDecode.hex_section_badchar_rejected pre body₁ body₂ c he h₁ hf hb hx
+
+/-- both rejections, on the token level -/
+theorem hex_section_rejects (t : Tok) (hk : t.kind = .strLit) (pre post : List Char) :
+    (∀ items : List HexItem, LitDecode.endsPlain pre = true →
+      (∀ c, HexItem.fill c ∈ items → isFiller c = true) → (nibbles items).length % 2 = 1 →
+      t.text = String.ofList (pre ++ '|' :: renderItems items ++ '|' :: post) → litOfToken t = none) ∧
+    (∀ (body : List Char) (c : Char), LitDecode.endsPlain pre = true → (∀ x ∈ body, x ≠ '|') →
+      isFiller c = false → c ≠ '|' → hexVal c = none →
+      t.text = String.ofList (pre ++ '|' :: body ++ c :: post) → litOfToken t = none) := by
+  constructor
+  · intro items he hf hodd ht
+    simp only [litOfToken, hk, ht, LitDecode.hex_section_odd_rejected pre post items he hf hodd, Option.map_none]
+  · intro body c he h1 hf hb hx ht
+    simp only [litOfToken, hk, ht, LitDecode.hex_section_badchar_rejected pre body post c he h1 hf hb hx,
+      Option.map_none]
+
+example : decodeStr "ab|41 4|c" = none :=
+  hex_section_odd_rejected "ab".toList "c".toList [.nib 4 false, .nib 1 false, .fill ' ', .nib 4 false]
+    (by decide) (by intro c hc; simp at hc; subst hc; decide) (by decide)
+example : decodeStr "|4g|" = none := by decide
+example : decodeStr "|41|x|zz" = none :=
+  hex_section_badchar_rejected "|41|x".toList [] "z".toList 'z' (by decide) (by simp) (by decide)
+    (by decide) (by decide)
 
 end Resynth.C17
